@@ -214,8 +214,11 @@ class SpatialCoordinate(GeometricCellQuantity):
                 return float(x[0])
             else:
                 return float(x)
-        else:
+        elif isinstance(x, tuple | list):
             return float(x[component[0]])
+        else:
+            # A bare number is a point on the line
+            return float(x)
 
     def count(self):
         """Count."""
